@@ -195,6 +195,8 @@ def format_time(fmt, ms, tz=None):
 
 
 def variant_str(v):
+    if v is None:
+        return ""      # an attribute that is set, to an invalid QVariant: present, and its text is empty
     if isinstance(v, bool):
         return "true" if v else "false"
     if isinstance(v, int):
@@ -258,7 +260,7 @@ def evaluate(pattern, msg, opts):
             if sp is not None:
                 spec = sp
                 name = body[:colon]
-                if sp["width"] > 4096:
+                if sp["width"] > 200000:
                     raise Corner("width above generator bound")
         if name.startswith("if-"):
             if spec is not None:
